@@ -180,14 +180,15 @@ func runC08(r *Run, rng *Rng, thorough bool) {
 		}
 		// a gate consults the validator on every call: claims attached while valid and then changed
 		// in place (the Evidence holds the very same object) must not get through ValidateAndSign
-		if valid && rng.Chance(12) {
+		if valid && rng.Chance(25) {
 			bad := c19Claims(rng, false)
 			for bad.P != d.P {
 				bad = c19Claims(rng, false)
 			}
 			dd := d
 			ops := []*evOp{{Kind: "setclaims", D: &dd}, {Kind: "mutate", D: bad}, {Kind: "vsign", Key: 0, Alg: keys()[0].algs[0], Mode: "good"},
-				{Kind: "mutate", D: &dd}, {Kind: "vsign", Key: 0, Alg: keys()[0].algs[0], Mode: "good"}, {Kind: "verify", Key: 0}}
+				{Kind: "mutate", D: &dd}, {Kind: "vsign", Key: 0, Alg: keys()[0].algs[0], Mode: "good"}, {Kind: "verify", Key: 0},
+				{Kind: "reattach"}, {Kind: "mutate", D: bad}, {Kind: "reattach"}}
 			ev := &psa.Evidence{}
 			res := make([]string, len(ops))
 			protos := make([]string, len(ops))
@@ -203,6 +204,10 @@ func runC08(r *Run, rng *Rng, thorough bool) {
 			if !strings.HasPrefix(res[4], "ok") || res[5] != "ok" {
 				r.Fail("like-sibling", fmt.Sprintf("valid again: ValidateAndSign=%s Verify=%s", trunc(res[4], 8), res[5]))
 			}
+			if res[6] != "ok" || res[8] != "err" {
+				r.Fail("gate-iff-valid", fmt.Sprintf("SetClaims of the object already attached: valid=%s, after it was made invalid in place=%s (must fail)", res[6], res[8]))
+			}
 		}
 	})
+	extGates(r, rng, map[bool]int{false: 200, true: 5000}[thorough])
 }
